@@ -19,6 +19,15 @@ CLAIMED = {
     ),
 }
 
+CLAIMED["C04"] = dict(
+    text="Proof (Lean 4), for every machine set, every oracle (all seeds and every value a sampler can return, NaN/inf included) and every history "
+         "with arbitrary batches: returned machine ids strictly increasing and existing (so distinct, at most one per machine, none without machines), "
+         "each action is the projection (kind, bypass, replace, timer) of an action of a state of the machine it names, all timeouts/durations <= 24 h, "
+         "END is absorbing across calls. The same decidable predicates run as a monitor on the implementation's traces; correspondence on actions.",
+    ref="5 (C04)",
+    technique="Lean 4 invariant proof over primitive steps of the framework model (Step/Reach/Run engine) + differential correspondence + spec monitor on implementation traces",
+)
+
 PENDING = {}
 
 ALL = [f"C{i:02d}" for i in range(1, 21)]
